@@ -9,7 +9,7 @@
 //   init | update                                    World::systems().init() / World::update()
 //   pause|resume|stop <name>                         findSystem("s<name>")-><op>(world)  (no-op when not found)
 //   end                                              destroy the World (~SystemManager destroys the ordered systems)
-// output: "<case> <op index in case> <outcome> <events>"
+// output: "<case> begin" once the case's World exists, then per op "<case> <op index in case> <outcome> <events>"
 //   outcome: ok | invalid_state | cannot_reorder | exc:<msg> | aborted (std::terminate was called)
 //   events : comma separated "<uid>:<callback>" in the order the callbacks ran, or '-';
 //            uid = ordinal of the add op inside the case
@@ -133,6 +133,8 @@ int main() {
             ss >> g_case;
             g_op = -1;
             fresh();
+            // the previous world is gone and the new one exists: whatever dies from here on dies in this case
+            std::cout << g_case << " begin" << std::endl;
             continue;
         }
         ++g_op;
